@@ -26,7 +26,7 @@ func init() {
 			"results of a comparison OF a spent tensor are checked themselves (untracked, no gradient) but never used as operands: what their descendants are is read differently by two sentences of the statement, so no verdict is given there",
 			"the hooked flags are cross-checked by public-API behaviour (trackedness of later results, gradients delivered, end-of-history probes)",
 		},
-		FloorQuick: 1500, FloorThor: 20000,
+		FloorQuick: 5000, FloorThor: 100000,
 		Run: runC08,
 	})
 }
@@ -482,7 +482,7 @@ func (h *c08hist) genOp() (ref.Instr, bool) {
 }
 
 func runC08(c *fw.Ctx) {
-	for i := 0; i < c.Pick(3000, 60000); i++ {
+	for i := 0; i < c.Pick(10000, 300000); i++ {
 		c.Case(func(k *fw.K) { c08History(k) })
 	}
 }
